@@ -44,8 +44,10 @@ func genAttempt(rt *rapid.T, proto string, label string) Attempt {
 		return Attempt{Kind: "stall"}
 	case k < 85:
 		return Attempt{Kind: "late"}
-	case k < 91:
+	case k < 89:
 		return Attempt{Kind: "reset", DelayMs: rapid.IntRange(0, 20).Draw(rt, label+"delay")}
+	case k < 91:
+		return Attempt{Kind: "vanish", DelayMs: rapid.IntRange(0, 10).Draw(rt, label+"delay")}
 	case k < 96:
 		return Attempt{Kind: "close", DelayMs: rapid.IntRange(0, 20).Draw(rt, label+"delay")}
 	default:
@@ -570,7 +572,7 @@ func runBatch(t ev.TB, part string, b *Batch) (classes []string, nontrivial bool
 	if st.UpstreamConnectionConFail.Count() > 0 {
 		cls["connect-failed"] = true
 	}
-	if r.did("reset")+r.did("close")+r.did("okclose") > 0 {
+	if r.did("reset")+r.did("vanish")+r.did("close")+r.did("okclose") > 0 {
 		cls["reset"] = true
 	}
 	if atomic.LoadInt32(&br.disconnects) > 0 {
